@@ -991,7 +991,7 @@ func (p *Path) bufOf(ptr *Value) *bufState {
 
 func nativeImplements(p *Path, nat *Native, dyn types.Type, it *types.Interface) bool {
 	switch nat.Kind {
-	case "opaque":
+	case "opaque", "kyber:suite", "kyber:group", "kyber:point", "kyber:scalar", "kyber:sigscheme", "zzstream":
 		return true
 	case "error":
 		eo := nat.Data.(*ErrObj)
@@ -1102,6 +1102,10 @@ func (p *Path) nativeMethod(bn *boundNative, args []Value) Value {
 		}
 	case "ctx":
 		return p.ctxMethod(nat, name, args)
+	case "kyber:suite", "kyber:group", "kyber:point", "kyber:scalar", "kyber:sigscheme":
+		return p.kyberMethod(nat, name, args, sig)
+	case "zzstream":
+		return nil
 	}
 	p.unsupported("native method %s.%s", nat.Kind, name)
 	return nil
